@@ -21,6 +21,7 @@ import (
 	"slices"
 	"strconv"
 	"strings"
+	"sync/atomic"
 	"time"
 
 	"github.com/go-git/go-git/v6/plumbing"
@@ -227,6 +228,7 @@ func runC02(c *fw.Ctx) {
 		tag    *object.Tag
 	}
 	decs := make([]dec, len(cases))
+	var nSame, nSameGitLayout atomic.Int64
 	c.ParDo(len(cases), 0, func(i int) {
 		k := cases[i]
 		raw := objs[i].Data
@@ -268,6 +270,12 @@ func runC02(c *fw.Ctx) {
 		case !bytes.Equal(out, raw):
 			verdict = "differs"
 		}
+		if verdict == "same" {
+			nSame.Add(1)
+			if layout == "" && k.Shape == "" {
+				nSameGitLayout.Add(1)
+			}
+		}
 		lb := k.Labels()
 		slices.Sort(lb)
 		c.Class(fmt.Sprintf("a/%s/%s/%s/%s/%s/%s", k.Kind, layout, strings.Join(lb, ","), k.Msg.Label, k.Shape, verdict))
@@ -290,6 +298,8 @@ func runC02(c *fw.Ctx) {
 		rep["re_encoded"] = string(out)
 		aFail(c, "re-encode differs: "+c02KeyTail(k, layout), "Decode+Encode does not reproduce the bytes of "+k.Desc()+": got "+fw.Q(string(out))+" want "+fw.Q(string(raw)), rep)
 	})
+
+	c.Extra("re_encode", map[string]int64{"objects": int64(len(cases)), "byte_identical": nSame.Load(), "byte_identical_in_gits_own_layout": nSameGitLayout.Load()})
 
 	// ---------------- (b) fields as git reports them
 	dupFree := func(k aCase) bool {
